@@ -145,11 +145,18 @@ def ps_setup(ctx, faults=False):
 def ps_post(ctx, st, result):
     d = st.data
     loaded = ("loaded", "cfg_str")
-    if d["defaults"] or d["env_flag"]:
-        want = ("common", ov(("defaults+env", d["defaults"], d["env_flag"]), loaded))
+    # the environment counts when the call asks for it (env=True) or leaves it to a parser built with default_env (env=None): as for parse_args / parse_object.
+    # (with defaults=False and env=None the shipped code skipped a default_env parser's environment in parse_string / parse_path only; fixed)
+    de = d["pm"].default_env
+    env_counts = True if d["env_flag"] else False if d["env_flag"] is False else de
+    base_used = True if d["defaults"] else env_counts
+    with_base = ("common", ov(("defaults+env", d["defaults"], d["env_flag"]), loaded))
+    got = expr_of(result)
+    if isinstance(base_used, bool):
+        ctx.oblige("post", "result==common(ov(defaults+env, loaded string));the-base-is-left-out-only-when-neither-defaults-nor-the-environment-count", got == (with_base if base_used else ("common", loaded)), note=str(got))
     else:
-        want = ("common", loaded)
-    ctx.oblige("post", "result==common(ov(defaults+env, loaded string))", expr_of(result) == want, note=str(expr_of(result)))
+        ctx.oblige("post", "result==common(ov(defaults+env, loaded string));the-base-is-left-out-only-when-neither-defaults-nor-the-environment-count[env left to the parser's default_env]",
+                   z3.If(base_used, z3.BoolVal(got == with_base), z3.BoolVal(got == ("common", loaded))), note=str(got))
 
 
 # ------------------------------------------------------------------------------------- ActionConfigFile.apply_config
